@@ -440,3 +440,13 @@ package j5convert
 //@   |   && !fitsFormat(intField(node).Format, *intField(node).Rules.Minimum) ==> result1 != nil
 //@ func checkIntegerBound
 //@   ensures exact: (result == nil) == (bound == nil || fitsFormat(format, *bound))
+
+// ---- an explicitly optional property has presence (C02) -------------------------------------------------------------
+// proto3 carries `optional` as a synthetic oneof that holds only that field: the property callback of an
+// object adds one, named _<field>, and points the field at it, before the field joins the message.
+// (what the callback is handed by the walker and what it captured is ASSUMED well formed: free requires)
+//@ func (*conversionVisitor).visitObjectNode$1
+//@   free requires fileOK(*inMessageWalker) && node != nil && node.Schema != nil && (*inMessageWalker).parentContext != nil && *message != nil && (*message).descriptor != nil && len((*message).descriptor.OneofDecl) < 2147483647
+//@   assert at comment#0 presence: propertyDesc != nil && propertyDesc.Name != nil && propertyDesc.Proto3Optional != nil && *propertyDesc.Proto3Optional ==>
+//@   |   propertyDesc.OneofIndex != nil && len((*message).descriptor.OneofDecl) >= 1 && *propertyDesc.OneofIndex == len((*message).descriptor.OneofDecl) - 1
+//@   |   && (*message).descriptor.OneofDecl[len((*message).descriptor.OneofDecl) - 1] != nil && *(*message).descriptor.OneofDecl[len((*message).descriptor.OneofDecl) - 1].Name == "_" + *propertyDesc.Name
